@@ -23,7 +23,7 @@ func init() {
 		secret, blind, nonce, challenge, origin := unhx(a[2]), unhx(a[3]), unhx(a[4]), unhx(a[5]), string(unhx(a[6]))
 		var envIdx int
 		fmt.Sscanf(a[7], "%d", &envIdx)
-		e := getC07Env(c.Seed, envIdx, []string{"a.example", "b.example", "c.example"})
+		e := getC07Env(c.Seed, envIdx, c08Origins)
 		ik, _ := ecdsa.CreateKey(elliptic.P384(), unhx(a[1]))
 		e.issuer.AddOriginWithIndexKey(origin, ik)
 		reseedRand(c.Seed, "c08.id:"+a[3]+a[4])
@@ -81,6 +81,10 @@ func c08attester() *type3.RateLimitedAttester {
 	return c08att
 }
 
+// origin names incl. pairs that a normalising lookup would confuse (trailing dot, case, trailing space, a prefix):
+// each is its own origin with its own index key
+var c08Origins = []string{"a.example", "b.example", "c.example", "a.example.", "A.example", "a.example ", "a.exampl", "b.example.", "c.example/"}
+
 func runC08(c *Ctx) {
 	r := NewRng(c.Seed, "c08")
 	helper := newT3Client(r)
@@ -88,7 +92,7 @@ func runC08(c *Ctx) {
 	defer delete(c.notes, "c08helper")
 	nPairs := c.Pick(10, 150)
 	seen := map[string]string{}
-	origins := []string{"a.example", "b.example", "c.example"}
+	origins := c08Origins
 	for p := 0; p < nPairs; p++ {
 		cl := newT3Client(r)
 		ikBytes := r.Bytes(48)
@@ -109,7 +113,7 @@ func runC08(c *Ctx) {
 				blind = bytes.Repeat([]byte{0xff}, 48) // >= N
 				blind[47] = byte(r.Uint32())
 			}
-			out := c.Run("c08.id", hx(cl.pubEnc), hx(ikBytes), hx(cl.secret), hx(blind), hx(r.Bytes(32)), hx(r.Bytes(r.IntN(50))), hx([]byte(origins[rep%3])), fmt.Sprint(p%2))
+			out := c.Run("c08.id", hx(cl.pubEnc), hx(ikBytes), hx(cl.secret), hx(blind), hx(r.Bytes(32)), hx(r.Bytes(r.IntN(50))), hx([]byte(origins[(p+3*rep)%len(origins)])), fmt.Sprint(p%2))
 			c.Count("id:flow")
 			in := map[string]any{"client": hx(cl.pubEnc), "indexKey": hx(ikBytes), "blind": hx(blind), "impl": out}
 			if !c.DirectOK(strings.HasPrefix(out, "ok "), "honest flow did not produce an anonymous issuer origin ID", in) {
@@ -137,7 +141,7 @@ func runC08(c *Ctx) {
 		// index key, on the same issuer object: the ID is that of the new index key
 		{
 			ik2 := r.Bytes(48)
-			o := c.Run("c08.id", hx(cl.pubEnc), hx(ik2), hx(cl.secret), hx(blind0), hx(r.Bytes(32)), "-", hx([]byte(origins[(p+1)%3])), fmt.Sprint(p%2))
+			o := c.Run("c08.id", hx(cl.pubEnc), hx(ik2), hx(cl.secret), hx(blind0), hx(r.Bytes(32)), "-", hx([]byte(origins[(p+1)%len(origins)])), fmt.Sprint(p%2))
 			c.Count("id:same-blind-other-index-key")
 			ikRef, _ := ecdsa.CreateKey(elliptic.P384(), ik2)
 			bp, _ := ecdsa.BlindPublicKeyWithContext(elliptic.P384(), &cl.sk.PublicKey, ikRef, t3ctx("IssuerBlind"))
